@@ -7,7 +7,7 @@ import gen
 from common import Case
 
 PID = "C05"
-OPNAMES = {2: "notif_dec", 3: "open_dec", 4: "open_handle", 7: "message_from_bytes", 8: "addpath_dec", 20: "prefixes",
+OPNAMES = {40: "api_sequence", 2: "notif_dec", 3: "open_dec", 4: "open_handle", 7: "message_from_bytes", 8: "addpath_dec", 20: "prefixes",
            21: "wrappers", 22: "ipv6_nexthops", 23: "attr_decode", 25: "mp_reach", 26: "mp_unreach", 27: "update_decode"}
 ORACLES = {}
 PANIC_IS_VIOLATION = True
@@ -80,6 +80,12 @@ def cases(rng, tier):
         if c.op == 27:
             c.tag = "c17." + c.tag
             cs.append(c)
+    # sequences of documented API calls (AddPeer/DeletePeer/GetPeer/ListPeers/Serve/Close, a failing listener) in any
+    # order: none may panic (a panic in a goroutine of corebgp kills the driver process; the case is then isolated)
+    import C20
+    api = [c for c in C20.cases(rng, tier) if c.op == 40 and not c.tag.startswith("validate")]
+    for c in api[:400 if tier == "quick" else 4000]:
+        cs.append(Case(40, c.ints, [], "api.sequences"))
     return cs
 
 
